@@ -706,26 +706,40 @@ def eigen_similarity(rep, prog):
                           "SymmetricEigensolver3x3::GetCosSin leaves %s on one of its paths: that is not a unit vector parallel to (u, v), so the reflections built from it are not orthogonal / do not annihilate the intended entry and the eigen decomposition of the covariance matrix is wrong" % bad_paths[0][:160])
     except _NoForm as ex:
         raise AnalysisBroken("SymmetricEigensolver3x3::GetCosSin is not in a form this checker evaluates (%s)" % ex)
-    # the hand-over: eval[k] = diagonal[i_k] and evec[k] = column i_k of Q, for the same i_k
+    # the hand-over: eval[k] = diagonal[i_k] and evec[k] = column i_k of Q, for the same i_k (written out or as loops over k, j)
     ev_ix, vec_ix = {}, {}
     for a_ in walk(fn["body"]):
         if a_.get("k") in ("BinaryOperator", "CXXOperatorCallExpr") and a_.get("op") == "=":
             txt = render(a_).replace(" ", "").replace("this->", "")
-            m1 = re.fullmatch(r"\(?eval\[(\d)\]=diagonal\[(\w+)\]\)?", txt)
-            m2 = re.fullmatch(r"\(?evec\[(\d)\]\[(\d)\]=Q\[(\d)\]\[(\w+)\]\)?", txt)
+            m1 = re.fullmatch(r"\(?eval\[(\w+)\]=diagonal\[([\w\[\]]+)\]\)?", txt)
+            m2 = re.fullmatch(r"\(?evec\[(\w+)\]\[(\w+)\]=Q\[(\w+)\]\[([\w\[\]]+)\]\)?", txt)
             if m1:
-                ev_ix[int(m1.group(1))] = (m1.group(2), a_)
+                ev_ix[m1.group(1)] = (m1.group(2), a_)
             if m2:
-                vec_ix[(int(m2.group(1)), int(m2.group(2)))] = (int(m2.group(3)), m2.group(4), a_)
-    if len(ev_ix) == 3 and len(vec_ix) == 9:
-        wrong = [(k, j) for (k, j), (row, ix, _a) in sorted(vec_ix.items()) if row != j or ix != ev_ix[k][0]]
+                vec_ix[(m2.group(1), m2.group(2))] = (m2.group(3), m2.group(4), a_)
+
+    def covers_0_2(keys):
+        keys = set(keys)
+        if keys == {"0", "1", "2"}:
+            return True
+        if len(keys) == 1 and not next(iter(keys)).isdigit():
+            name = next(iter(keys))
+            for l in walk(fn["body"]):
+                if l.get("k") == "ForStmt" and isinstance(l.get("init"), dict) and len(l["init"].get("decls", [])) == 1 and l["init"]["decls"][0].get("name") == name:
+                    d0 = l["init"]["decls"][0]
+                    if re.sub(r"[()\s]", "", render(d0.get("init") or {})) == "0" and re.sub(r"[()\s]", "", render(l.get("cond") or {})) == "%s<3" % name:
+                        return True
+        return False
+    if ev_ix and vec_ix and covers_0_2(ev_ix) and covers_0_2({k for k, _j in vec_ix}) and all(covers_0_2({j for k2, j in vec_ix if k2 == k}) for k in {k for k, _j in vec_ix}):
+        wrong = [(k, j) for (k, j), (row, ix, _a) in sorted(vec_ix.items()) if row != j or k not in ev_ix or ix != ev_ix[k][0]]
+        distinct = len({v[0] for v in ev_ix.values()}) == len(ev_ix)
         n += 1
-        if not wrong and len({v[0] for v in ev_ix.values()}) == 3:
-            rep.ok("C12.eigen-similarity", prog, fn, ev_ix[0][1], "eval[k] = diagonal[i_k] and evec[k][j] = Q[j][i_k] with the same i_k for k, j = 0..2 (eigenvector k is the column of Q that belongs to eigenvalue k)")
+        if not wrong and distinct:
+            rep.ok("C12.eigen-similarity", prog, fn, next(iter(ev_ix.values()))[1], "eval[k] = diagonal[i_k] and evec[k][j] = Q[j][i_k] with the same i_k for k, j = 0..2 (eigenvector k is the column of Q that belongs to eigenvalue k)")
         else:
-            k, j = wrong[0] if wrong else (0, 0)
+            k, j = wrong[0] if wrong else next(iter(vec_ix))
             rep.violation("C12.eigen-similarity", prog, fn, vec_ix[(k, j)][2], "eigenvector handed over for the wrong eigenvalue",
-                          "SymmetricEigensolver3x3::operator() returns eval[%d] = diagonal[%s] but fills evec[%d][%d] from Q[%d][%s]: eigenvector k must be column i_k of Q, component by component, for the same i_k as the eigenvalue - otherwise the axis taken for the largest eigenvalue is not its eigenvector and the long axis of the cell is wrong" % (k, ev_ix[k][0], k, j, vec_ix[(k, j)][0], vec_ix[(k, j)][1]))
+                          "SymmetricEigensolver3x3::operator() returns eval[%s] = diagonal[%s] but fills evec[%s][%s] from Q[%s][%s]: eigenvector k must be column i_k of Q, component by component, for the same i_k as the eigenvalue - otherwise the axis taken for the largest eigenvalue is not its eigenvector and the long axis of the cell is wrong" % (k, ev_ix.get(k, ("?",))[0], k, j, vec_ix[(k, j)][0], vec_ix[(k, j)][1]))
     else:
         raise AnalysisBroken("SymmetricEigensolver3x3::operator(): the hand-over of eigenvalues and eigenvectors (eval[k] = diagonal[..], evec[k][j] = Q[j][..]) is not in the form this checker reads (%d + %d assignments recognised)" % (len(ev_ix), len(vec_ix)))
     if n == 0:
